@@ -1624,8 +1624,9 @@ func (w *envelopingWriter) maybeInit() {
 		return
 	}
 	if w.rw.op.clientEnveloper == nil {
-		// just pass everything through
-		w.remainingBytes = -1
+		// Just pass everything through. If the backend declared a content
+		// length, the body is held to it (-1 if it did not).
+		w.remainingBytes = w.rw.contentLen
 		w.current = w.w
 		return
 	}
@@ -1786,7 +1787,15 @@ func (w *transformingWriter) Close() error {
 		// was buffered is dropped: the hold-back buffer behind w.w has been
 		// returned to the pool by then and must not be written to.
 		if w.rw.err == nil {
-			if err := w.flushMessage(); err != nil {
+			var written int
+			if w.buffer != nil {
+				written = w.buffer.Len()
+			}
+			if declared := w.rw.contentLen; declared >= 0 && written != declared {
+				// The body was cut short (or is too long): it must not be
+				// decoded as if it were the message.
+				w.rw.reportError(fmt.Errorf("handler wrote %d bytes but declared a content length of %d", written, declared))
+			} else if err := w.flushMessage(); err != nil {
 				w.rw.reportError(err)
 			}
 		}
